@@ -29,9 +29,7 @@ def first_difference(a: Any, b: Any, path: str = "") -> Optional[Tuple[str, Any,
             d = first_difference(a[k], b[k], f"{path}/{k}")
             if d:
                 return d
-        if ka != kb:
-            return path + "/<key order>", ka, kb
-        return None
+        return None  # the order of keys within a mapping carries no meaning; the order of list items does
     if isinstance(a, list):
         if len(a) != len(b):
             return path + "/<len>", len(a), len(b)
@@ -228,29 +226,46 @@ class DiffRunner:
         base_case = copy.deepcopy(case)
         base_case.pop("profile", None)
         base_case.pop("shipped", None)
-        base_case.update({"scenario": ref["scenario"], "inventory": ref.get("inventory"), "origin": ref.get("origin")})
+        if not case.get("schedule_dir"):  # schedule directories are re-read from disk by every execution
+            base_case.update({"scenario": ref["scenario"], "inventory": ref.get("inventory"), "origin": ref.get("origin")})
         ops = ref["ops"]
         cur = (dict(base_case, ops=ops), ref, viol)
 
         def noop(op):
             return ["step", 0] + op[2:3] if op[0] == "step" and op[1] != 0 else None
 
-        # the first op (reset(seed=s)) anchors the comparison (the re-seed variant replays the list from it): keep it
-        head = 1 if ops and ops[0][0] == "reset" else 0
+        # anchors are never dropped or altered: the first reset(seed=s) (the re-seed variant replays the list from it),
+        # a "mark" and the reset that follows it (they delimit the compared part)
+        def protected(o_list):
+            prot = set()
+            if o_list and o_list[0][0] == "reset":
+                prot.add(0)
+            for i, o in enumerate(o_list):
+                if o[0] == "mark":
+                    prot.update({i, i + 1})
+            return prot
+
         for phase in ("noop", "drop"):
             n = 2
-            while time.time() < t_end and len(ops) > 1 + head:
-                size = max(1, (len(ops) - head) // n)
+            while time.time() < t_end:
+                prot = protected(ops)
+                free = [i for i in range(len(ops)) if i not in prot]
+                if len(free) < 1:
+                    break
+                size = max(1, len(free) // n)
                 cands = []
-                for lo in range(head, len(ops), size):
-                    hi = min(len(ops), lo + size)
-                    new = ops[:lo] + ([noop(o) or o for o in ops[lo:hi]] if phase == "noop" else []) + ops[hi:]
-                    if new != ops and len(new) > head:
+                for lo in range(0, len(free), size):
+                    chunk = set(free[lo : lo + size])
+                    if phase == "noop":
+                        new = [(noop(o) or o) if i in chunk else o for i, o in enumerate(ops)]
+                    else:
+                        new = [o for i, o in enumerate(ops) if i not in chunk]
+                    if new != ops and new:
                         cands.append(new)
                 if not cands:
                     if size == 1:
                         break
-                    n = min(len(ops), n * 2)
+                    n = min(len(free), n * 2)
                     continue
                 res = self.evaluate_cases([dict(base_case, ops=c) for c in cands[:12]])
                 hit = next(((c, r, v) for (c, r, v) in res if v and v["sig"] == sig), None)
@@ -261,7 +276,7 @@ class DiffRunner:
                 else:
                     if size == 1:
                         break
-                    n = min(len(ops), n * 2)
+                    n = min(len(free), n * 2)
         return cur
 
     # -- main ----------------------------------------------------------------------------------------------------
